@@ -8,13 +8,21 @@ if os.path.exists(p):
     res = {r["id"]: r for r in json.load(open(p))["results"]}
 print("| id | what the change does | needs, to manifest | caught by (violation kinds) |")
 print("|----|----------------------|--------------------|-----------------------------|")
-n = c = 0
+n = c = nb = qb = 0
 for f in sorted(glob.glob(os.path.join(VERIF, "seeded", "*", "meta.json"))):
     m = json.load(open(f)); n += 1
     det = res.get("seeded/" + m["id"], {}).get("checks") or m.get("detection", {})
     hits = [f"{k}: {', '.join(v['violations'][:3])}" for k, v in det.items() if v["exit"] == 1]
+    if m.get("benign"):
+        nb += 1
+        quiet = all(v["exit"] == 0 for v in det.values())
+        qb += quiet
+        s = m["summary"].replace("|", "/").replace("\n", " ")
+        print(f"| {m['id']} (benign) | {s[:230]}{'...' if len(s) > 230 else ''} | nothing: behaviour-preserving | {'quiet (as it should be)' if quiet else '**ALARM**: ' + '; '.join(hits)} |")
+        n -= 1
+        continue
     c += bool(hits)
     s = m["summary"].replace("|", "/").replace("\n", " ")
     need = m.get("needs_to_manifest", "").replace("|", "/").replace("\n", " ")
     print(f"| {m['id']} | {s[:230]}{'...' if len(s) > 230 else ''} | {need[:200]}{'...' if len(need) > 200 else ''} | {'; '.join(hits) if hits else '**not caught** (see 9.6)'} |")
-print(f"\n{c} of {n} caught.")
+print(f"\n{c} of {n} breaking changes caught; {qb} of {nb} benign refactorings leave the checks quiet.")
